@@ -67,8 +67,9 @@ unsigned int get_rex_prefix(struct instr *all_instr, struct operand *m,
   int rex_prefix = 0;
   unsigned int rm = m->reg;
   // preprocess vex paremeters
+  // (the base register of a memory operand says nothing about the operand size)
   all_instr->hex.is_w0 = true;
-  if ((m->reg & MODE_MASK) < reg64)
+  if (((all_instr->mem_disp ? r->reg : m->reg) & MODE_MASK) < reg64)
     all_instr->hex.is_w0 = false;
   if ((m->reg & MODE_MASK) == mmx64 || (r->reg & MODE_MASK) == mmx64) {
     rex_prefix = get_vector_rex_prefix(all_instr, m->reg, r->reg);
